@@ -167,6 +167,16 @@ def r17_2(ctx):
             r.ok({"%s=Closed" % f: "on every path that closes the connection"})
         elif ss:
             r.violate(b.name, "path:%s" % f, b.where(ss[0]), "%s=Closed is skipped on some closing path" % f)
+    # ... and whoever waits in wait_for_gathering_complete() is released: the gathering state is set to Complete on
+    # every closing path, unconditionally (close stops the runner and aborts the task that would otherwise mirror the
+    # gatherer's state, so nothing else will ever publish it - also when gathering never started)
+    gs = [bi for bi, v in sends.get("ice_gathering_state", []) if v == "Complete"]
+    if gs and on_close_path(gs):
+        r.ok({"ice_gathering_state=Complete": "on every path that closes the connection", "site": b.where(gs[0])})
+    else:
+        r.violate(b.name, "send:ice_gathering_state=Complete", b.where(anchor),
+                  "close does not unconditionally publish ice_gathering_state = Complete: a pending or later wait_for_gathering_complete() "
+                  "hangs for ever on a connection that is closed before (or just as) gathering starts")
     dr = [bi for bi, v in sends.get("disconnect_reason", [])]
     if dr:
         r.ok({"site": b.where(dr[0]), "disconnect_reason": "published when none was set before"})
